@@ -270,6 +270,10 @@ def invalid_defs(u, add):
     one('**int32', '(ptr (ptr int32))', 'frugal:"1,optional,i32"')
     one('*[]int32', '(ptr (slice int32))', 'frugal:"1,optional,list<i32>"')
     one('*map[string]int32', '(ptr (map string int32))', 'frugal:"1,optional,map<string:i32>"')
+    one('*[]int32', '(ptr (slice int32))', 'frugal:"1,optional,set<i32>"')
+    one('*[]string', '(ptr (slice string))', 'frugal:"1,optional,set<string>"')
+    one('*[]*Leaf', '(ptr (slice (ptr (struct %d Leaf))))' % lsid, 'frugal:"1,optional,set<Leaf>"')
+    one('*[][]int32', '(ptr (slice (slice int32)))', 'frugal:"1,optional,list<set<i32>>"')
     one('[]**Leaf', '(slice (ptr (ptr (struct %d Leaf))))' % lsid, 'frugal:"1,optional,list<Leaf>"')
     one('map[string]*[]int32', '(map string (ptr (slice int32)))', 'frugal:"1,default,map<string:list<i32>>"')
     # ids
@@ -372,6 +376,9 @@ def random_structs(u, rng, count, prefix='R'):
     for i in range(count):
         name = '%s%d' % (prefix, i)
         nf = rng.below(9)
+        wide = rng.chance(1, 25)
+        if wide:
+            nf = rng.pick([63, 64, 65, 66, 130])     # more fields than one presence word / one index block
         ids = set()
         fields = []
         for _ in range(nf):
@@ -380,6 +387,8 @@ def random_structs(u, rng, count, prefix='R'):
                 continue
             ids.add(fid)
             t = rand_type(rng, u, names, 3, 'field')
+            if wide and not rng.chance(1, 8):
+                t = rng.pick([('i32',), ('i64',), ('bool',), ('string',), ('i8',), ('double',), ('i16',)])
             req = rng.pick(['default', 'default', 'required', 'optional', 'optional'])
             if rng.chance(1, 6) and (is_scalar(t) or t[0] == 'string'):
                 t = ('ptr', t)
@@ -405,6 +414,16 @@ def random_structs(u, rng, count, prefix='R'):
         for j in range(len(order) - 1, 0, -1):
             k = rng2.below(j + 1)
             order[j], order[k] = order[k], order[j]
+        # fields that are not part of the schema in between: they shift the Go offsets of the others
+        if rng2.chance(1, 4):
+            for j in range(1 + rng2.below(3)):
+                gt, mt, ty = rng2.pick([('int8', 'int8', ('i8',)), ('bool', 'bool', ('bool',)), ('struct{}', '(unsup 25)', ('i32',)),
+                                        ('[3]byte', '(unsup 17)', ('i32',)), ('uint16', '(unsup 9)', ('i32',)), ('string', 'string', ('string',)),
+                                        ('*int64', '(ptr (int64 -))', ('i64',))])
+                ig = Field(0, ty, go_text=gt, model_text=mt, name='Ig%d' % j, ignored=True)
+                if rng2.chance(1, 3):
+                    ig = Field(0, ty, go_text=gt, model_text=mt, name='ig%d' % j, exported=False, ignored=True, tag='frugal:"%d,default,i32"' % (900 + j))
+                order.insert(rng2.below(len(order) + 1), ig)
         s = Struct(name, order, holder=rng.chance(1, 4), init=init)
         u.add(s)
         names.append(name)
